@@ -117,11 +117,16 @@ type Exec struct {
 	Fixed       []Draw // concolic mode: pinned draws (consumed in order)
 	Observed    map[string][]string
 	Tier        string
+	TraceInstr  bool
 	SampleEvery int
 	Seed        int64
 	Samples     []*Candidate
 	Untrusted   []string
 	Flags       map[string]int
+	InitError   string
+	InitSteps   int
+	baseGlobals map[*ssa.Global]*value
+	baseInited  map[*ssa.Package]bool
 	pathObs     []obsEntry
 	modelState
 }
@@ -174,9 +179,9 @@ func (ex *Exec) Run() {
 func (ex *Exec) runPath(prefix []int) {
 	ex.prefix, ex.pos, ex.trail = prefix, 0, nil
 	ex.pc, ex.draws = nil, nil
-	ex.globals = map[*ssa.Global]*value{}
-	ex.inited = map[*ssa.Package]bool{}
 	ex.protected = map[*value]string{}
+	ex.protectedMaps = map[*MapV]string{}
+	ex.resetGlobals()
 	ex.steps, ex.depth, ex.errSeq, ex.objSeq, ex.timeSeq = 0, 0, 0, 0, 0
 	ex.imprecise = nil
 	ex.pathFlags = map[string]bool{}
@@ -196,7 +201,6 @@ func (ex *Exec) runPath(prefix []int) {
 				panic(r)
 			}
 		}()
-		ex.ensureInit(ex.Harness.Pkg)
 		ex.callFn(nil, token.NoPos, ex.Harness, nil)
 	}()
 	if end.kind == "return" && ex.solver != nil && len(ex.Samples) < ex.SampleEvery && isPow2(ex.PathsByEnd["return"]+1) {
@@ -275,6 +279,7 @@ func (ex *Exec) decide(kind string, alts []*smt.Term) int {
 		ex.assume(alts[live[0]])
 		return live[0]
 	}
+	ex.forkSeq++
 	if ex.pos < len(ex.prefix) {
 		c := ex.prefix[ex.pos]
 		ex.pos++
@@ -323,6 +328,7 @@ func (ex *Exec) choose(kind string, n int) int {
 	if n == 1 {
 		return 0
 	}
+	ex.forkSeq++
 	if ex.pos < len(ex.prefix) {
 		c := ex.prefix[ex.pos]
 		ex.pos++
@@ -532,6 +538,10 @@ func (ex *Exec) recordCandidate(id, kind, label string, fr *frame, p token.Pos, 
 
 func (ex *Exec) concreteDraw(d Draw, m map[string]interface{}) Draw {
 	out := Draw{Op: d.Op, Label: d.Label, N: d.N}
+	if len(d.vars) == 0 && d.Op != "choose" && d.Op != "string" {
+		out.V, out.Bytes = d.V, d.Bytes
+		return out
+	}
 	switch d.Op {
 	case "choose":
 		out.V = d.pick
@@ -628,4 +638,44 @@ func (ex *Exec) samplePath() {
 		c.Observed = append(c.Observed, o.label+"="+ex.renderUnder(o.v, m))
 	}
 	ex.Samples = append(ex.Samples, c)
+}
+
+// resetGlobals gives the path a private copy of the post-initialisation heap. The initialisers
+// of the harness package and its imports are executed once per harness (they are concrete).
+func (ex *Exec) resetGlobals() {
+	if ex.baseGlobals == nil {
+		ex.globals = map[*ssa.Global]*value{}
+		ex.inited = map[*ssa.Package]bool{}
+		func() {
+			defer func() {
+				if r := recover(); r != nil {
+					if pe, ok := r.(pathEnd); ok {
+						ex.InitError = pe.kind + ": " + pe.msg
+						return
+					}
+					panic(r)
+				}
+			}()
+			ex.ensureInit(ex.Harness.Pkg)
+		}()
+		ex.baseGlobals = ex.globals
+		ex.baseInited = ex.inited
+		ex.InitSteps = ex.steps
+	}
+	c := newCloner()
+	ex.globals = map[*ssa.Global]*value{}
+	for g, cell := range ex.baseGlobals {
+		ex.globals[g] = c.cell(cell)
+	}
+	ex.inited = map[*ssa.Package]bool{}
+	for p, v := range ex.baseInited {
+		ex.inited[p] = v
+	}
+	if ex.ProtectGlobals {
+		for g, cell := range ex.globals {
+			if g.Pkg != nil && strings.HasPrefix(g.Pkg.Pkg.Path(), RepoModule) && g.Name() != "init$guard" {
+				ex.protectDeep(cell, "global "+g.String(), map[*value]bool{})
+			}
+		}
+	}
 }
